@@ -18,7 +18,8 @@ META = {
     "rule": (
         "inputs: G1 programs/expressions, corpus statements, xonsh seeds, G4 mutations (invalid), and programs using except*, type parameter "
         "lists and type statements (valid and broken variants), each evaluated in every cell of verbose in {False,True} x py_version in "
-        "{None,(3,8)..(3,13)} x mode in {exec,eval} (stdout discarded).  Oracles: (1) verbose-inert: the canonical outcome (tree dump with "
+        "{None,(3,8)..(3,13)} x mode in {exec,eval} (stdout discarded); plus 8 families of long left-associative chains / statement runs / pipelines "
+        "(300..2500 links) parsed quietly and with verbose under the interpreter's default recursion limit.  Oracles: (1) verbose-inert: the canonical outcome (tree dump with "
         "positions, or exception class/message/position/text) is identical with and without verbose in every cell; (2) gating: need = (3,12) if "
         "the default tree contains TypeAlias or non-empty type_params, (3,11) if it contains TryStar, else none; for an accepted input every "
         "py_version >= need gives the default outcome and every py_version < need gives a SyntaxError whose message names need; for a rejected "
@@ -53,14 +54,59 @@ def need_of(tree):
     return max(needs) if needs else None
 
 
+class Discard(io.TextIOBase):
+    def write(self, s):
+        return len(s)
+
+
 def run(src, mode, verbose, version):
     opts = {"verbose": verbose}
     if version is not None:
         opts["py_version"] = version
     if verbose:
-        with contextlib.redirect_stdout(io.StringIO()):
+        with contextlib.redirect_stdout(Discard()):
             return outcome(src, mode, **opts)
     return outcome(src, mode, **opts)
+
+
+CHAINS = {
+    "binop": lambda n: "+".join(f"a{i}" for i in range(n)),
+    "attribute": lambda n: "a" + ".b" * n,
+    "call": lambda n: "f" + "()" * n,
+    "subscript": lambda n: "a" + "[0]" * n,
+    "mixed": lambda n: "a" + ".b()[0]" * (n // 3),
+    "compare-and-bool": lambda n: " or ".join(f"a{i} < {i}" for i in range(n // 2)),
+    "statements": lambda n: "".join(f"x{i} = f(a.b)[{i}] + 1\n" for i in range(n)),
+    "pipeline": lambda n: "$(" + " | ".join(f"c{i} -x" for i in range(n // 2)) + ")",
+}
+
+
+def check_deep(rec, case):
+    """verbose must stay inert on long inputs too, under the interpreter's *default* recursion limit: the parser builds
+    left-associative chains iteratively, so what it accepts quietly it must accept while tracing"""
+    import sys
+
+    src = CHAINS[case["family"]](case["n"]) if "family" in case else case["src"]
+    mode = case.get("mode", "eval")
+    old = sys.getrecursionlimit()
+    sys.setrecursionlimit(1000)
+    try:
+        quiet = run(src, mode, False, None)
+        loud = run(src, mode, True, None)
+    finally:
+        sys.setrecursionlimit(old)
+    rec.case(case, quiet.kind == "tree", labels=("stream:deep-chain", f"family:{case.get('family', '?')}", f"base-{mode}:{quiet.kind}"), key=(src, "deep"))
+    if quiet.kind == "hang" or loud.kind == "hang":
+        rec.inconclusive["deep-chain-timeout"] += 1
+        return
+    if quiet.canon() != loud.canon():
+        rec.fail(case, f"verbose-changes-outcome:{quiet.kind}->{loud.kind}", {"mode": mode, "py_version": None, "recursion_limit": 1000, "quiet": [str(x)[:120] for x in quiet.brief()], "verbose": [str(x)[:200] for x in loud.brief()]})
+
+
+def check(rec, case):
+    if case.get("deep"):
+        return check_deep(rec, case)
+    return check_cells(rec, case)
 
 
 def interesting(tree) -> bool:
@@ -68,7 +114,7 @@ def interesting(tree) -> bool:
     return {"Call", "Subscript", "BinOp"} <= kinds
 
 
-def check(rec, case):
+def check_cells(rec, case):
     src = case["src"]
     modes = case.get("modes", ["exec", "eval"])
     stream = case.get("stream", "?")
@@ -138,6 +184,11 @@ def search(rec, ctx):
 
     for s in ctx.shard(TARGETED):
         check(rec, {"src": s + "\n", "stream": "targeted-error", "modes": ["exec"]})
+
+    fams = sorted(CHAINS)
+    deep = [(f, n) for f in fams for n in ((300, 1100) if not ctx.thorough else (150, 300, 700, 1100, 1500, 2500))]
+    for f, n in ctx.shard(deep):
+        check(rec, {"deep": True, "family": f, "n": n, "mode": "exec" if f in ("statements", "pipeline") else "eval"})
 
     def gen(rnd):
         r = rnd.random()
